@@ -474,7 +474,7 @@ Proof.
     repeat split; auto.
     - now rewrite upd_other.
     - now rewrite remove_first_notin.
-    - rewrite remove_first_notin by assumption. apply (i_pool _ _ I). }
+    - apply (i_pool _ _ I). }
   destruct (detach_invx _ _ _ I Ha D) as [IX Hn].
   apply comm_close_inv; [assumption|assumption|].
   eapply job_not_infra; [exact I|congruence].
@@ -504,4 +504,303 @@ Proof.
   destruct (detach_invx _ _ _ I Ha D) as [IX Hn].
   apply comm_close_inv; [assumption|assumption|].
   eapply job_not_infra; [exact I|congruence].
+Qed.
+
+Definition ok (r : option st) : Prop := match r with Some s' => Inv s' | None => False end.
+
+Definition set_q (s : st) (r : list call) : st :=
+  mkSt (tbl s) (kern s) (closing s) (own s) (hs s) (tmo s) r (pool s) (pcount s).
+
+Lemma dequeue_handler_inv : forall s o r, Inv s -> q s = CHandler o :: r -> Inv (set_q s r).
+Proof.
+  intros s o r I Hq. destruct I. unfold set_q. constructor; cbn [tbl kern closing own hs tmo q pool pcount]; auto.
+  intros f. rewrite <- i_q0, Hq. reflexivity.
+Qed.
+
+(* comm_close_complete: fd_close + close(2) *)
+Lemma close_complete_inv : forall s f r, Inv s -> q s = CComplete f :: r -> ok (close_complete maxfd (set_q s r) f).
+Proof.
+  intros s f r I Hq.
+  destruct I as [Ifds Ikern Iinfra Iinfra2 Iclosing Iq Iact Ipool Iuniq].
+  assert (Hc : closing s f = true).
+  { pose proof (Iq f) as H. rewrite Hq in H. unfold ncomplete in H. cbn [filter is_complete] in H.
+    rewrite Nat.eqb_refl in H. cbn [length] in H. destruct (closing s f); [reflexivity|discriminate]. }
+  destruct (Iclosing f Hc) as (Ho & _ & _).
+  unfold close_complete, set_q. cbn [tbl kern closing own hs tmo q pool pcount].
+  destruct (fd_close_ok maxfd (tbl s) f Ifds Ho) as (d' & Hcl & Hi & Hfl & Hnum). rewrite Hcl. cbn [ok].
+  assert (Hge : ninfra <= f).
+  { destruct (le_lt_dec ninfra f); [assumption|]. destruct (Iinfra f l) as (_ & E & _). congruence. }
+  assert (Hact : forall g, active (mkSt d' (upd (kern s) f false) (upd (closing s) f false) (upd (own s) f ONone)
+                                     (upd (hs s) f []) (upd (tmo s) f false) r (pool s) (pcount s)) g = true
+                           -> g <> f /\ active s g = true).
+  { intros g Ha. apply active_spec in Ha. cbn [tbl closing] in Ha. rewrite Hfl in Ha. destruct Ha as [H1 H2].
+    destruct (Nat.eq_dec g f) as [->|Hne]; [rewrite upd_same in H1; discriminate|].
+    rewrite upd_other in H1, H2 by assumption. split; [assumption|]. apply active_spec. auto. }
+  constructor; cbn [tbl kern closing own hs tmo q pool pcount]; auto.
+  - intros g. rewrite Hfl. unfold upd. destruct (Nat.eqb g f); auto.
+  - intros g Hg. destruct (Iinfra g Hg) as (A & B & C). rewrite Hfl, !upd_other by lia. auto.
+  - intros g Hg. destruct (Nat.eq_dec g f) as [->|Hne]; [rewrite upd_same in Hg; discriminate|].
+    rewrite upd_other in Hg by assumption. auto.
+  - intros g Hg. destruct (Nat.eq_dec g f) as [->|Hne]; [rewrite upd_same in Hg; discriminate|].
+    rewrite Hfl. rewrite !upd_other in * by assumption. auto.
+  - intros g. pose proof (Iq g) as H. rewrite Hq in H. unfold ncomplete in H. cbn [filter is_complete] in H.
+    destruct (Nat.eq_dec g f) as [->|Hne].
+    + rewrite upd_same. rewrite Nat.eqb_refl, Hc in H. cbn [length] in H. unfold ncomplete. lia.
+    + rewrite upd_other by assumption. destruct (Nat.eqb_spec f g); [congruence|]. exact H.
+  - intros g _ Ha. destruct (Hact g Ha) as [Hne Ha']. specialize (Iact g (fun x => x) Ha').
+    unfold act_ok in *. cbn [own hs tmo pool]. rewrite !upd_other by assumption. exact Iact.
+  - destruct Ipool as (P1 & P2 & P3). split; [assumption|]. split; [|assumption].
+    intros g Hin. destruct (P2 g Hin) as [A B].
+    assert (g <> f). { intros ->. apply active_spec in A. destruct A. congruence. }
+    rewrite upd_other by assumption. split; [|assumption].
+    apply active_spec in A. apply active_spec. cbn [tbl closing]. rewrite Hfl, !upd_other by assumption. assumption.
+  - intros g h Hg Hh. destruct (Hact g Hg) as [N1 A1], (Hact h Hh) as [N2 A2].
+    rewrite !upd_other by assumption. apply Iuniq; assumption.
+Qed.
+
+(* accept(2)/socket(2) + fd_open + the owner job's close handler and timeout *)
+Lemma open_new_inv : forall s f o, Inv s -> alloc maxfd s = Some f -> is_job o = true ->
+  (forall g, active s g = true -> own s g <> o) -> ok (open_new maxfd s f o).
+Proof.
+  intros s f o I Hal Hj Hfresh.
+  destruct (alloc_some _ _ Hal) as [Hlt Hk].
+  destruct I as [Ifds Ikern Iinfra Iinfra2 Iclosing Iq Iact Ipool Iuniq].
+  assert (Hop : fopen (tbl s) f = false) by (now rewrite <- Ikern).
+  assert (Hcl : closing s f = false).
+  { destruct (closing s f) eqn:E; [|reflexivity]. destruct (Iclosing f E). congruence. }
+  assert (Hge : ninfra <= f).
+  { destruct (le_lt_dec ninfra f); [assumption|]. destruct (Iinfra f l) as (E & _). congruence. }
+  destruct Ipool as (P1 & P2 & P3).
+  assert (Hnp : ~ In f (pool s)).
+  { intros Hin. destruct (P2 f Hin) as [A _]. apply active_spec in A. destruct A. congruence. }
+  unfold open_new. destruct (fd_open_ok maxfd (tbl s) f Ifds Hlt) as (d' & Hopn & Hi & Hfl & Hnum).
+  rewrite Hopn. cbn [ok].
+  assert (Hact : forall g, g <> f ->
+     active (mkSt d' (upd (kern s) f true) (upd (closing s) f false) (upd (own s) f o)
+                  (upd (hs s) f [o]) (upd (tmo s) f true) (q s) (pool s) (pcount s)) g = active s g).
+  { intros g Hne. unfold active. cbn [tbl closing]. rewrite Hfl, !upd_other by assumption. reflexivity. }
+  constructor; cbn [tbl kern closing own hs tmo q pool pcount]; auto.
+  - intros g. rewrite Hfl. unfold upd. destruct (Nat.eqb g f); auto.
+  - intros g Hg. destruct (Iinfra g Hg) as (A & B & C). rewrite Hfl, !upd_other by lia. auto.
+  - intros g Hg. destruct (Nat.eq_dec g f) as [->|Hne].
+    + rewrite upd_same in Hg. subst o. discriminate.
+    + rewrite upd_other in Hg by assumption. auto.
+  - intros g Hg. destruct (Nat.eq_dec g f) as [->|Hne]; [rewrite upd_same in Hg; discriminate|].
+    rewrite Hfl. rewrite !upd_other in * by assumption. auto.
+  - intros g. rewrite Iq. destruct (Nat.eq_dec g f) as [->|Hne].
+    + now rewrite upd_same, Hcl.
+    + now rewrite upd_other.
+  - intros g _ Ha. destruct (Nat.eq_dec g f) as [->|Hne].
+    + unfold act_ok. cbn [own hs tmo pool]. rewrite !upd_same. destruct o; try discriminate; auto.
+    + rewrite Hact in Ha by assumption. specialize (Iact g (fun x => x) Ha).
+      unfold act_ok in *. cbn [own hs tmo pool]. rewrite !upd_other by assumption. exact Iact.
+  - split; [assumption|]. split; [|assumption]. intros g Hin. destruct (P2 g Hin) as [A B].
+    assert (g <> f) by congruence. rewrite Hact, upd_other by assumption. auto.
+  - intros g h Hg Hh Heq Hjob.
+    destruct (Nat.eq_dec g f) as [->|Ng], (Nat.eq_dec h f) as [->|Nh]; auto.
+    + rewrite upd_same, upd_other in Heq by assumption. rewrite Hact in Hh by assumption.
+      exfalso. eapply Hfresh; eauto.
+    + rewrite upd_same, upd_other in Heq by assumption. rewrite Hact in Hg by assumption.
+      exfalso. eapply Hfresh; eauto.
+    + rewrite !upd_other in * by assumption. rewrite Hact in Hg, Hh by assumption. apply Iuniq; assumption.
+Qed.
+
+(* COMPLETE_PERSISTENT_MSG -> PconnPool::push *)
+Lemma pool_push_inv : forall s f c, Inv s -> active s f = true -> own s f = OSrv c ->
+  Inv (pool_push maxfd reserved s f).
+Proof.
+  intros s f c I Ha Ho.
+  pose proof (i_act _ _ I f (fun x => x) Ha) as Hact. unfold act_ok in Hact. rewrite Ho in Hact.
+  destruct Hact as (H1 & H2 & H3).
+  assert (Hge : ninfra <= f) by (eapply job_not_infra; [exact I|congruence]).
+  unfold pool_push. destruct (fd_usage_high maxfd reserved (fnum (tbl s))).
+  - match goal with |- Inv (comm_close ?x f) => set (s1 := x) end.
+    assert (D : detached f s s1).
+    { unfold detached, s1; cbn [tbl kern closing own hs tmo q pool pcount]. repeat split; auto.
+      - now rewrite upd_other.
+      - now rewrite upd_other.
+      - now rewrite remove_first_notin.
+      - apply (i_pool _ _ I). }
+    destruct (detach_invx _ _ _ I Ha D) as [IX Hn]. apply comm_close_inv; assumption.
+  - destruct I as [Ifds Ikern Iinfra Iinfra2 Iclosing Iq Iact Ipool Iuniq].
+    destruct Ipool as (P1 & P2 & P3).
+    assert (Hactive : forall g, active (mkSt (tbl s) (kern s) (closing s) (upd (own s) f OIdle) (upd (hs s) f [])
+                                             (upd (tmo s) f true) (q s) (f :: pool s) (pcount s + 1)) g = active s g)
+      by reflexivity.
+    constructor; cbn [tbl kern closing own hs tmo q pool pcount]; auto.
+    + intros g Hg. destruct (Iinfra g Hg) as (A & B & C). rewrite upd_other by lia. auto.
+    + intros g Hg. destruct (Nat.eq_dec g f) as [->|Hne]; [rewrite upd_same in Hg; discriminate|].
+      rewrite upd_other in Hg by assumption. auto.
+    + intros g Hg. assert (g <> f). { intros ->. apply active_spec in Ha. destruct Ha. congruence. }
+      rewrite !upd_other by assumption. auto.
+    + intros g _ Hg. rewrite Hactive in Hg. destruct (Nat.eq_dec g f) as [->|Hne].
+      * unfold act_ok. cbn [own hs tmo pool]. rewrite !upd_same. repeat split; auto. now left.
+      * specialize (Iact g (fun x => x) Hg). unfold act_ok in *. cbn [own hs tmo pool].
+        rewrite !upd_other by assumption.
+        destruct (own s g); auto; destruct Iact as (A & B & C); repeat split; auto.
+        -- intros [E|Hin]; [congruence|auto].
+        -- intros [E|Hin]; [congruence|auto].
+        -- now right.
+    + split; [constructor; assumption|]. split.
+      * intros g [<-|Hin]; [rewrite upd_same; auto|].
+        destruct (P2 g Hin) as [A B]. assert (g <> f) by congruence. rewrite upd_other by assumption. auto.
+      * cbn [length]. lia.
+    + intros g h Hg Hh Heq Hjob. rewrite Hactive in Hg, Hh.
+      destruct (Nat.eq_dec g f) as [->|Ng]; [rewrite upd_same in Hjob; discriminate|].
+      destruct (Nat.eq_dec h f) as [->|Nh].
+      * rewrite upd_same, upd_other in Heq by assumption. rewrite upd_other in Hjob by assumption.
+        rewrite Heq in Hjob. discriminate.
+      * rewrite !upd_other in * by assumption. apply Iuniq; assumption.
+Qed.
+
+(* PconnPool::pop with keepOpen: the newest idle connection becomes the server connection of transaction c *)
+Lemma pop_keep_inv : forall s f rest c, Inv s -> pool s = f :: rest -> find_own maxfd s (OSrv c) = None ->
+  Inv (mkSt (tbl s) (kern s) (closing s) (upd (own s) f (OSrv c)) (upd (hs s) f [OSrv c])
+            (upd (upd (tmo s) f false) f true) (q s) rest (pcount s - 1)).
+Proof.
+  intros s f rest c I Hp Hnone.
+  pose proof (find_own_none _ _ I Hnone) as Hfresh.
+  destruct I as [Ifds Ikern Iinfra Iinfra2 Iclosing Iq Iact Ipool Iuniq].
+  destruct Ipool as (P1 & P2 & P3). rewrite Hp in P1, P2, P3.
+  destruct (P2 f ltac:(now left)) as [Ha Ho].
+  inversion P1 as [|? ? Hnin Hnd]; subst.
+  assert (Hge : ninfra <= f).
+  { destruct (le_lt_dec ninfra f); [assumption|]. destruct (Iinfra f l) as (_ & _ & E). congruence. }
+  constructor; cbn [tbl kern closing own hs tmo q pool pcount]; auto.
+  - intros g Hg. destruct (Iinfra g Hg) as (A & B & C). rewrite upd_other by lia. auto.
+  - intros g Hg. destruct (Nat.eq_dec g f) as [->|Hne]; [rewrite upd_same in Hg; discriminate|].
+    rewrite upd_other in Hg by assumption. auto.
+  - intros g Hg. assert (g <> f). { intros ->. apply active_spec in Ha. destruct Ha. congruence. }
+    rewrite !upd_other by assumption. auto.
+  - intros g _ Hg. change (active s g = true) in Hg. destruct (Nat.eq_dec g f) as [->|Hne].
+    + unfold act_ok. cbn [own hs tmo pool]. rewrite !upd_same. auto.
+    + specialize (Iact g (fun x => x) Hg). unfold act_ok in *. cbn [own hs tmo pool].
+      rewrite !upd_other by assumption. rewrite Hp in Iact.
+      destruct (own s g); auto; destruct Iact as (A & B & C); repeat split; auto.
+      * intros Hin. apply C. now right.
+      * intros Hin. apply C. now right.
+      * destruct C; [congruence|assumption].
+  - split; [assumption|]. split.
+    + intros g Hin. destruct (P2 g ltac:(now right)) as [A B].
+      assert (g <> f) by congruence. rewrite upd_other by assumption. auto.
+    + cbn [length] in P3. lia.
+  - intros g h Hg Hh Heq Hjob. change (active s g = true) in Hg. change (active s h = true) in Hh.
+    destruct (Nat.eq_dec g f) as [->|Ng], (Nat.eq_dec h f) as [->|Nh]; auto.
+    + rewrite upd_same, upd_other in Heq by assumption. exfalso. exact (Hfresh h Hh (eq_sym Heq)).
+    + rewrite upd_same, upd_other in Heq by assumption. exfalso. exact (Hfresh g Hg Heq).
+    + rewrite !upd_other in * by assumption. apply Iuniq; assumption.
+Qed.
+
+(* PconnPool::pop without keepOpen: the popped connection is closed *)
+Lemma pop_kill_inv : forall s f rest, Inv s -> pool s = f :: rest ->
+  Inv (comm_close (mkSt (tbl s) (kern s) (closing s) (own s) (hs s) (upd (tmo s) f false) (q s) rest (pcount s - 1)) f).
+Proof.
+  intros s f rest I Hp.
+  destruct (i_pool _ _ I) as (P1 & P2 & P3). rewrite Hp in P2, P3.
+  destruct (P2 f ltac:(now left)) as [Ha Ho].
+  match goal with |- Inv (comm_close ?x f) => set (s1 := x) end.
+  assert (D : detached f s s1).
+  { unfold detached, s1; cbn [tbl kern closing own hs tmo q pool pcount]. repeat split; auto.
+    - now rewrite upd_other.
+    - rewrite Hp. cbn [remove_first]. now rewrite Nat.eqb_refl.
+    - cbn [length] in P3. lia. }
+  destruct (detach_invx _ _ _ I Ha D) as [IX Hn].
+  apply comm_close_inv; [assumption|assumption|].
+  eapply job_not_infra; [exact I|congruence].
+Qed.
+
+Lemma is_job_fresh : forall s o, Inv s -> find_own maxfd s o = None -> forall g, active s g = true -> own s g <> o.
+Proof. intros. eapply find_own_none; eauto. Qed.
+
+(* every event preserves the invariant, and no assertion of fd.cc fires *)
+Lemma step_inv : forall s e, Inv s -> ok (step maxfd reserved s e).
+Proof.
+  intros s e I. destruct e as [c|c|c keep|c pers|c|c keep|c|f|f|f|ab]; unfold step.
+  - (* EAccept *)
+    destruct (find_own maxfd s (OCli c)) eqn:F; [exact I|].
+    destruct (alloc maxfd s) eqn:A; [|exact I].
+    apply open_new_inv; auto. eapply is_job_fresh; eauto.
+  - (* EConnect *)
+    destruct (find_own maxfd s (OSrv c)) eqn:F; [exact I|].
+    destruct (alloc maxfd s) eqn:A; [|exact I].
+    apply open_new_inv; auto. eapply is_job_fresh; eauto.
+  - (* EPop *)
+    destruct (pool s) as [|f rest] eqn:P; [exact I|].
+    destruct keep.
+    + destruct (find_own maxfd s (OSrv c)) eqn:F; [exact I|]. cbn [ok tbl kern closing own hs tmo q pool pcount].
+      now apply pop_keep_inv.
+    + cbn [ok]. now apply pop_kill_inv.
+  - (* ESrvDone *)
+    destruct (find_own maxfd s (OSrv c)) eqn:F; [|exact I].
+    destruct (find_own_some _ _ _ F) as (_ & Ha & Ho). cbn [ok].
+    destruct pers; [eapply pool_push_inv; eauto|eapply close_server_inv; eauto].
+  - (* ESrvFail *)
+    destruct (find_own maxfd s (OSrv c)) eqn:F; [|exact I].
+    destruct (find_own_some _ _ _ F) as (_ & Ha & Ho). cbn [ok]. eapply close_server_inv; eauto.
+  - (* ECliDone *)
+    destruct (find_own maxfd s (OCli c)) eqn:F; [|exact I].
+    destruct (find_own_some _ _ _ F) as (_ & Ha & Ho). cbn [ok].
+    destruct keep; [exact I|]. apply comm_close_job_inv; auto. now rewrite Ho.
+  - (* ECliEOF *)
+    destruct (find_own maxfd s (OCli c)) eqn:F; [|exact I].
+    destruct (find_own_some _ _ _ F) as (_ & Ha & Ho). cbn [ok].
+    apply comm_close_job_inv; auto. now rewrite Ho.
+  - (* ETimeout *)
+    destruct (active s f && tmo s f) eqn:E; [|exact I].
+    apply andb_true_iff in E. destruct E as [Ha Ht].
+    destruct (own s f) eqn:Ho; cbn [ok]; try exact I.
+    + apply comm_close_job_inv; auto. now rewrite Ho.
+    + eapply close_server_inv; eauto.
+    + now apply find_and_close_inv.
+  - (* EIdleRead *)
+    destruct (active s f) eqn:Ha; [|exact I].
+    destruct (own s f) eqn:Ho; cbn [ok]; try exact I. now apply find_and_close_inv.
+  - (* EClose *)
+    destruct (active s f && is_job (own s f)) eqn:E; [|exact I].
+    apply andb_true_iff in E. destruct E as [Ha Hj]. cbn [ok]. now apply comm_close_job_inv.
+  - (* ERun *)
+    destruct (q s) as [|[o|f] r] eqn:Q; [exact I| |].
+    + pose proof (dequeue_handler_inv _ _ _ I Q) as I1. unfold set_q in I1.
+      destruct o; try exact I1. destruct ab; [|exact I1].
+      match goal with |- ok (match find_own maxfd ?x _ with _ => _ end) => set (s1 := x) in * end.
+      destruct (find_own maxfd s1 (OSrv c)) eqn:F; [|exact I1].
+      destruct (find_own_some _ _ _ F) as (_ & Ha & Ho). cbn [ok]. eapply close_server_inv; eauto.
+    + now apply (close_complete_inv s f r).
+Qed.
+
+Lemma run_inv : forall evs s, Inv s -> ok (run maxfd reserved s evs).
+Proof.
+  induction evs as [|e r IH]; intros s I; cbn [run]; [exact I|].
+  pose proof (step_inv s e I) as H. destruct (step maxfd reserved s e); [|contradiction]. now apply IH.
+Qed.
+
+Lemma init_inv : Inv (init ninfra).
+Proof.
+  unfold init. constructor; cbn [tbl kern closing own hs tmo q pool pcount fopen fnum fbig]; auto.
+  - unfold fds_inv. cbn [fnum fopen fbig]. split; [|split].
+    + now rewrite count_ltb.
+    + intros f Hf. apply Nat.ltb_lt in Hf. lia.
+    + symmetry. apply lower_unique.
+      * lia.
+      * intros Hp. apply Nat.ltb_lt. lia.
+      * intros i _ Hi. apply Nat.ltb_lt in Hi. lia.
+  - intros f Hf. apply Nat.ltb_lt in Hf. rewrite Hf. auto.
+  - intros f Hf. destruct (f <? ninfra) eqn:E; [now apply Nat.ltb_lt|discriminate].
+  - discriminate.
+  - intros f _ Ha. unfold act_ok. cbn [own]. apply active_spec in Ha. cbn [tbl fopen] in Ha.
+    destruct Ha as [Ha _]. now rewrite Ha.
+  - split; [constructor|]. split; [contradiction|reflexivity].
+  - intros f g Hf _ _ Hj. apply active_spec in Hf. cbn [tbl fopen] in Hf. destruct Hf as [Hf _].
+    rewrite Hf in Hj. discriminate.
+Qed.
+
+(* reachable states *)
+Lemma reachable_inv : forall evs s, run maxfd reserved (init ninfra) evs = Some s -> Inv s.
+Proof.
+  intros evs s H. pose proof (run_inv evs (init ninfra) init_inv) as R. rewrite H in R. exact R.
+Qed.
+
+Lemma never_asserts : forall evs, run maxfd reserved (init ninfra) evs <> None.
+Proof.
+  intros evs H. pose proof (run_inv evs (init ninfra) init_inv) as R. rewrite H in R. exact R.
 Qed.
